@@ -69,10 +69,9 @@ _lk = open(os.path.join(d, ".lock"), "w"); fcntl.flock(_lk, fcntl.LOCK_EX)
 if a.mode != "both" and os.path.exists(mp):  # merge with the other half of the evaluation
     try:
         prev = json.load(open(mp)).get("evaluated", {})
-        if prev.get("base_commit") == report["base_commit"]:
-            report = dict(prev, **report)
-        elif a.mode == "checks":
-            report = dict({k: v for k, v in prev.items() if k.startswith("suite")}, **report)
+        keep = {k: v for k, v in prev.items() if (k.startswith("suite") if a.mode == "checks" else not k.startswith("suite"))}
+        report[f"base_commit_{a.mode}"] = report["base_commit"]
+        report = dict(keep, **report)
     except Exception:
         pass
 meta.update({"evaluated": report, "what_i_ran": [
